@@ -84,6 +84,63 @@ CHECKS.update({
         ref="§4 C18"),
 })
 
+CHECKS.update({
+    "C07": dict(
+        text="PARTIAL. Proved: occupied_le_keys (n distinct keys occupy at most n registers, any history, any hash), C07_empty (the empty sketch's linear-counting value is 0), C07_lc_cap "
+             "(the linear-counting value is monotone in the number of occupied registers). The central error-envelope clause is statistical (FastHash ≈ random function, empirical HLL++ "
+             "tables) and is NOT a theorem: the run searches for refutations with a seeded Monte-Carlo envelope test at k = 7 and ties query() to the documented estimator (C17 slice).",
+        tech="Lean 4 proof of the deterministic clauses + estimator correspondence; the envelope clause is only searched (Monte-Carlo), not proved",
+        note=TB + " NOT PROVED: relative error ≤ k·1.04/√m for random key sets (statistical assumption about FastHash and the bias tables).",
+        ref="§4 C07"),
+    "C10": dict(
+        text="C10_roundtrip proves for all five classes that everything a constructor accepted is accepted again on load and that the loaded object equals the saved one (class, every parameter, "
+             "tables, bookkeeping), default_phi_valid covers the width-1 heavy-hitter case, C10_dispatch/C10_reject prove the module-level dispatch and TypeError of the other count-min loaders, "
+             "C10_continue that any further history gives the same result. The run compares real save/load (shared_memory on/off), every public attribute, continued use under placed draws, "
+             "merge with the original and a second generation, and the constructor validation grid with the model.",
+        tech="Lean 4 proof (round-trip over a model of constructors/save/load incl. validation) + differential correspondence",
+        ref="§4 C10"),
+    "C12": dict(
+        text="lin_add_mult / hh_add_mult (v ≤ 2^32-1) / log_add_mult (same draw stream) / hll_add_mult prove add(key, v) = v single adds as STATE equalities for every state; logCounter_mult, "
+             "hh_cell_add_mult (+ proof that the cap hypothesis is necessary), dict = replicate-list, addNgram_spec/windows_spec characterise the ngram entry points. The run compares every entry "
+             "point on a real sketch with the loop of single adds on another real sketch and with the model.",
+        tech="Lean 4 proof (kernel laws: multiplicity = iterated unit adds; window characterisation) + real-vs-real and real-vs-model correspondence",
+        ref="§4 C12"),
+    "C14": dict(
+        text="PARTIAL. Proved (Mathlib, finite counting): sum_err, row_markov, depth_product, C14_ideal — for column functions drawn uniformly and independently per row the number of hash tuples "
+             "whose classic error reaches T in every row times T^d is ≤ ((N-w_x)·W^(n-1))^d, i.e. fraction ≤ ((N-w_x)/(W·T))^d; bad_estimate_all_rows transfers it through C01's upper bound. "
+             "Checked exactly: column = fasthash64(key, row) % width in every kernel. That FastHash behaves like such a family is an ASSUMPTION, only searched (χ² of row pairs, Zipf streams).",
+        tech="Lean 4 proof of the ideal-hash bound by counting + exact column correspondence; FastHash randomness is assumed and only searched",
+        note=TB + " NOT PROVED: FastHash with seeds 0..d-1 ≈ independent uniform hash functions (statistical).",
+        ref="§4 C14"),
+    "C15": dict(
+        text="merge_ok_iff proves, for every pair of same-family sketches, that the comparison chain (Python short-circuit order, attribute lookup) accepts iff the named parameters agree and "
+             "otherwise refuses with TypeError, never touching a missing attribute; compatible_merges is the converse clause. The run enumerates every ordered pair of a configuration grid on the "
+             "real code: exception class vs the model, byte snapshots of both operands before/after.",
+        tech="Lean 4 proof (decision logic stated outright) + exhaustive grid correspondence",
+        ref="§4 C15"),
+    "C16": dict(
+        text="PARTIAL. Proved: the layouts computed by __init__ and by attach_existing_shm agree for every shape (cms_layouts_agree, hh_layouts_agree), the segments tile the block exactly with a "
+             "16-byte bookkeeping tail and are pairwise disjoint (…_tiling, chained_disjoint), little-endian round trip (decode_encode). The run compares real array offsets with the model and the "
+             "state seen through owner/views with an in-memory sketch under interleaved operations, and checks /dev/shm on deletion.",
+        tech="Lean 4 proof of layout agreement/tiling + differential correspondence across views",
+        note=TB + " NOT PROVED (runtime): mapping coherence between attached views, unlink semantics of POSIX shared memory.",
+        ref="§4 C16"),
+    "C17": dict(
+        text="Translation validation in nature. Proved on the tables REGENERATED from the source on every run (decide +kernel): 10×200 points, every raw-estimate row strictly increasing, "
+             "raw[0]-bias[0] = threshold and raw[199]-bias[199] = 5·2^p exactly; the estimator's literal constants; and over any ordered field the branch structure (spec_*) and the interpolation "
+             "(interp_left/inside/skip/between/right). The run compares real query() on boundary-placed register arrays with an independent rendering of the documented estimator and the Lean Float mirror.",
+        tech="Lean 4 proof over translated tables (decide +kernel) and of the branch/interpolation structure + float correspondence at 1e-9",
+        note=TB + " Float evaluation is compared (1e-9), not proved.",
+        ref="§4 C17"),
+    "C20": dict(
+        text="PARTIAL (container modelled). C20_prefix/C20_prefix_classes prove that for a file whose end-of-central-directory signature occurs exactly once, 22 bytes before the end (uniqueSig, "
+             "evaluated on every file), EVERY strict prefix fails to open in the model of np.load + zipfile._EndRecData (EOFError / ValueError / BadZipFile), and C20_complete that the whole file "
+             "opens. The run loads every prefix of real saved files through all loaders and compares the outcome class with the model prefix by prefix.",
+        tech="Lean 4 proof (every strict prefix lacks a complete end record) + exhaustive prefix correspondence",
+        note=TB + " np.load/zipfile behaviour is modelled from the installed sources.",
+        ref="§4 C20"),
+})
+
 NOT_YET = {}
 
 
